@@ -535,6 +535,145 @@ let run_api id rest =
     Printf.sprintf "%s %s" id (v (Api.api_stream (mt = "1") (n rate) (n ch) (n bps) (n bs) inrange))
   | _ -> id ^ " bad-case"
 
+(* ---- CTOR: public constructors ---- *)
+let plist (conv : string -> 'a) (s : string) : 'a list =
+  if s = "-" then [] else
+  Stdlib.List.concat_map (fun it ->
+    match split_on '*' it with
+    | [v; k] -> Stdlib.List.init (int_of_string k) (fun _ -> conv v)
+    | _ -> [conv it]) (split_on ',' s)
+
+let fnv_bytes (l : coq_N list) : string =
+  let h = ref 0xcbf29ce484222325L in
+  let mulp x = Int64.mul x 0x100000001b3L in
+  Stdlib.List.iter (fun b ->
+    h := mulp (Int64.logxor !h (Int64.of_int (int_of_n b)));
+    h := mulp !h; h := mulp !h; h := mulp !h) l;
+  Printf.sprintf "%016Lx" !h
+
+exception Inner_err
+
+let ctor_res (t : string list) : Rice.residual Base.coq_Res =
+  match t with
+  | [po; block; warm; params; q; r] ->
+    Ctor.residual_new (n_of_u64_string po) (n_of_u64_string block) (n_of_u64_string warm)
+      (plist n_of_u64_string params) (plist n_of_u64_string q) (plist n_of_u64_string r)
+  | _ -> failwith "res args"
+
+let ctor_qp (t : string list) : Predict.qparams Base.coq_Res =
+  match t with
+  | [coefs; order; shift; prec] ->
+    Ctor.qparams_new (plist z_of_i64_string coefs) (n_of_u64_string order) (z_of_i64_string shift) (n_of_u64_string prec)
+  | _ -> failwith "qp args"
+
+let rec take k l = if k = 0 then [] else match l with [] -> [] | x :: r -> x :: take (k - 1) r
+let rec drop k l = if k = 0 then l else match l with [] -> [] | _ :: r -> drop (k - 1) r
+
+let unwrap_inner r = match r with Ok x -> x | _ -> raise Inner_err
+
+let ctor_sub (t : string list) : Component.subframe Base.coq_Res =
+  match t with
+  | ["CONST"; block; dc; bps] -> Ctor.constant_new (n_of_u64_string block) (z_of_i64_string dc) (n_of_u64_string bps)
+  | ["VERB"; xs; bps] -> Ctor.verbatim_new (plist z_of_i64_string xs) (n_of_u64_string bps)
+  | "FIXED" :: warm :: bps :: rest ->
+    let res = unwrap_inner (ctor_res rest) in
+    Ctor.fixed_new (plist z_of_i64_string warm) res (n_of_u64_string bps)
+  | "LPC" :: warm :: bps :: rest ->
+    let q = unwrap_inner (ctor_qp (take 4 rest)) in
+    let res = unwrap_inner (ctor_res (drop 4 rest)) in
+    Ctor.lpc_new (plist z_of_i64_string warm) q res (n_of_u64_string bps)
+  | _ -> failwith "sub args"
+
+let ctor_header (t : string list) : Component.header Base.coq_Res =
+  match t with
+  | [block; cha; bps; rate; kind; off] ->
+    let c = match cha with "L" -> Codes.LeftSide | "R" -> Codes.RightSide | "M" -> Codes.MidSide
+                         | s -> Codes.Indep (n_of_int ((int_of_string (Stdlib.String.sub s 1 (Stdlib.String.length s - 1))) land 255)) in
+    let variable = (kind = "S") in
+    let o = n_of_u64_string off in
+    let o = if variable then o else n_of_u64 (Int64.logand (Int64.of_string ("0u" ^ off)) 0xFFFFFFFFL) in
+    Ctor.header_new (n_of_u64_string block) c (n_of_u64_string bps) (n_of_u64_string rate) variable o
+  | _ -> failwith "header args"
+
+let verdict_of_bool b = if b then "1" else "0"
+
+let observe_ops (v : bool) (cb : coq_N) (ops : Sink.op list) (same : coq_N list -> bool) : string =
+  match Ctor.written ops with
+  | Ok ((bits, bytes)) ->
+    Printf.sprintf "ok v=%s cb=%s w=%s p=%s hex=%s" (verdict_of_bool v) (dec_of_n cb) (dec_of_n bits)
+      (if same bytes then "same" else "diff")
+      (if Stdlib.List.length bytes > 4096 then Printf.sprintf "len%d:%s" (Stdlib.List.length bytes) (fnv_bytes bytes) else hex_of_bytes bytes)
+  | Err _ -> Printf.sprintf "ok v=%s cb=%s w=err p=na hex=-" (verdict_of_bool v) (dec_of_n cb)
+  | Panic _ -> Printf.sprintf "ok v=%s cb=%s w=panic p=na hex=-" (verdict_of_bool v) (dec_of_n cb)
+
+let split_subs (toks : string list) : string list list =
+  let rec go cur acc = function
+    | [] -> Stdlib.List.rev (if cur = [] then acc else Stdlib.List.rev cur :: acc)
+    | ";" :: r -> go [] (if cur = [] then acc else Stdlib.List.rev cur :: acc) r
+    | x :: r -> go (x :: cur) acc r in
+  go [] [] toks
+
+let run_ctor id rest =
+  let t = split_on ' ' rest in
+  let lift r k = match r with Ok c -> k c | Err _ -> "err" | Panic _ -> "panic" in
+  let body =
+    try
+      (match t with
+       | "RES" :: a -> lift (ctor_res a) (fun r ->
+           observe_ops (Ctor.verify_residual r) (Component.residual_count_bits r) (Component.residual_ops r)
+             (fun bytes -> match Parser.p_residual r.Rice.r_block r.Rice.r_warmup (Flac.rd_of bytes) with
+                | Some ((r', _)) -> r' = r | None -> false))
+       | "QP" :: a -> lift (ctor_qp a) (fun q -> Printf.sprintf "ok v=%s cb=0 w=0 p=na hex=-" (verdict_of_bool (Ctor.verify_qparams q)))
+       | ("CONST" | "VERB" | "FIXED" | "LPC") :: _ -> lift (ctor_sub t) (fun s ->
+           observe_ops (Ctor.verify_subframe s) (Component.subframe_count_bits s) (Component.subframe_ops s)
+             (fun bytes -> match Parser.p_subframe (Ctor.sub_block s) (Ctor.sub_bps s) (Flac.rd_of bytes) with
+                | Some ((s', _)) -> s' = s | None -> false))
+       | "FH" :: a -> lift (ctor_header a) (fun h ->
+           match Component.header_ops h with
+           | Ok ops -> observe_ops (Ctor.verify_header h) (Component.header_count_bits h) ops
+                         (fun bytes -> match Parser.p_frame_header bytes (Flac.rd_of bytes) with
+                            | Some ((h', _)) -> h' = h | None -> false)
+           | _ -> Printf.sprintf "ok v=%s cb=%s w=err p=na hex=-" (verdict_of_bool (Ctor.verify_header h)) (dec_of_n (Component.header_count_bits h)))
+       | "FRAME" :: a ->
+         let h = unwrap_inner (ctor_header (take 6 a)) in
+         let subs = Stdlib.List.map (fun st -> unwrap_inner (ctor_sub st)) (split_subs (drop 6 a)) in
+         lift (Ctor.frame_new h subs) (fun f ->
+           let bps = (match Parser.bits_of_ss_tag h.Component.h_ss_tag with Some b -> b | None -> n_of_int 16) in
+           match Component.frame_ops f with
+           | Ok ops -> observe_ops (Ctor.verify_frame f) (Component.frame_count_bits f) ops
+                         (fun bytes -> match Parser.p_frame (Codes.chassign_channels h.Component.h_ch) bps bytes with
+                            | Some ((f', [])) -> f' = f | _ -> false)
+           | _ -> Printf.sprintf "ok v=%s cb=%s w=err p=na hex=-" (verdict_of_bool (Ctor.verify_frame f)) (dec_of_n (Component.frame_count_bits f)))
+       | ["SI"; rate; ch; bps] -> lift (Ctor.streaminfo_ctor (n_of_u64_string rate) (n_of_u64_string ch) (n_of_u64_string bps)) (fun i ->
+           observe_ops (Ctor.verify_streaminfo i) (n_of_int 272) (Component.streaminfo_ops i)
+             (fun bytes -> match Parser.p_stream_info (Flac.rd_of bytes) with
+                | Some ((i', _)) -> i' = i | None -> false))
+       | ["UNK"; tag; len] ->
+         let n = int_of_string len in
+         let tg = (int_of_string tag) land 255 in
+         if n > 5000 then
+           (* the payload is not materialised in the model: only its length matters to the constructor *)
+           (if tg >= 1 && tg <= 126 && n < 16777216 then Printf.sprintf "ok v=1 cb=%d w=%d p=same hex=big" (8 * n) (8 * n) else "err")
+         else
+           let data = Stdlib.List.init n (fun i -> n_of_int ((i * 7 + tg) mod 256)) in
+           lift (Ctor.unknown_new (n_of_int tg) data) (fun m ->
+             let ((tag', data')) = m in
+             let same _ =
+               (match Ctor.streaminfo_ctor (n_of_int 44100) (n_of_int 1) (n_of_int 16) with
+                | Ok info ->
+                  let s = { Component.s_info = info; s_meta = [(tag', data')]; s_frames = [] } in
+                  (match Component.stream_bytes s with
+                   | Ok b -> (match Parser.parse_stream b with Some s' -> s' = s | None -> false)
+                   | _ -> false)
+                | _ -> false) in
+             match Ctor.written [Sink.OBytes data'] with
+             | Ok ((bits, bytes)) ->
+               Printf.sprintf "ok v=1 cb=%d w=%s p=%s hex=len%d:%s" (8 * n) (dec_of_n bits) (if same () then "same" else "diff") (Stdlib.List.length bytes) (fnv_bytes bytes)
+             | _ -> "ok v=1 cb=0 w=err p=na hex=-")
+       | _ -> "bad-case")
+    with Inner_err -> "err-inner" in
+  id ^ " " ^ body
+
 let run_line (line : string) : string =
   match split_on ' ' line with
   | stream :: id :: _ ->
@@ -554,6 +693,7 @@ let run_line (line : string) : string =
        | "PARSE" -> run_parse id rest
        | "PARTRACE" -> run_partrace id rest
        | "API" -> run_api id rest
+       | "CTOR" -> run_ctor id rest
        | "RICE" -> run_rice id rest
        | _ -> id ^ " unknown-stream")
      with Stack_overflow -> id ^ " model-stack-overflow")
